@@ -361,6 +361,7 @@ pub fn chunked(a: &[String]) -> Value {
 ///   length-condition    ["content-length-range", 1, 4] but the file has 23 bytes   -> must be refused
 ///   bad-signature       one hex digit of x-amz-signature changed                   -> must be refused
 ///   other-secret        signed with a secret that is not the named key's            -> must be refused
+///   empty-signature / truncated-signature / extended-signature   the field is empty, lacks its last character, has one more   -> must be refused
 ///   binary-file         valid; the file contains CR/LF runs, boundary look-alikes   -> stored exactly
 ///   unterminated-file   the body ends without the closing delimiter of the file part    -> must be refused (no object write)
 ///   field-whitespace    valid; key ends in a space, a metadata value in CRLF SP TAB -> key and metadata arrive exactly
@@ -385,6 +386,9 @@ pub fn post_form(a: &[String]) -> Value {
     } else { signing_key(&date, region, "s3") };
     let mut sig = hex(&hmac(&skey, policy.as_bytes()));
     if variant == "bad-signature" { let c = if sig.ends_with('0') { '1' } else { '0' }; sig.pop(); sig.push(c); }
+    if variant == "empty-signature" { sig.clear(); }
+    if variant == "truncated-signature" { sig.truncate(63); }
+    if variant == "extended-signature" { sig.push('0'); }
     let file: Vec<u8> = if variant == "binary-file" {
         let mut f = b"line1\r\n\r\n--\r\n----verifFormBoundary7MA4YWx\r\n--".to_vec();
         f.extend_from_slice(format!("\r\n--{}", &boundary[..boundary.len() - 1]).as_bytes());
@@ -438,4 +442,54 @@ pub fn v2_presigned(a: &[String]) -> Value {
     let ok = calls.len() == 1;
     json!({"violates": !ok, "input": {"path": path, "path_as_sent": wire_path, "string_to_sign": sts}, "expected": "authenticated (one backend invocation)",
            "observed": {"status": st, "backend_calls": calls, "body": body.chars().take(200).collect::<String>()}, "replay_args": ["sigv2-presigned", a[0]]})
+}
+
+/// sigv4-multi-header: (a) a SigV4 header-auth GET whose signed header `x-amz-meta-t` is sent twice and signed per the specification
+/// (ONE canonical header line `name:value1,value2`, the name once in SignedHeaders) must be accepted; (b) the same request signed with ONE
+/// value, to which a second value of that signed header is appended afterwards, must be refused
+pub fn multi_header() -> Value {
+    let (date, stamp) = now_stamp(0);
+    let payload = "UNSIGNED-PAYLOAD"; let host = "localhost";
+    let scope = format!("{date}/us-east-1/s3/aws4_request");
+    let sign = |lines: &str| {
+        let canonical = format!("GET\n/bkt/key\n\nhost:{host}\nx-amz-content-sha256:{payload}\nx-amz-date:{stamp}\n{lines}\nhost;x-amz-content-sha256;x-amz-date;x-amz-meta-t\n{payload}");
+        let sts = format!("AWS4-HMAC-SHA256\n{stamp}\n{scope}\n{}", sha256_hex(canonical.as_bytes()));
+        hex(&hmac(&signing_key(&date, "us-east-1", "s3"), sts.as_bytes()))
+    };
+    let auth = |sig: String| format!("AWS4-HMAC-SHA256 Credential={AK}/{scope}, SignedHeaders=host;x-amz-content-sha256;x-amz-date;x-amz-meta-t, Signature={sig}");
+    let base = |sig: String| vec![("host".to_owned(), host.to_owned()), ("x-amz-content-sha256".to_owned(), payload.to_owned()), ("x-amz-date".to_owned(), stamp.clone()), ("authorization".to_owned(), auth(sig))];
+    // (a) both values signed
+    // AWS SigV4: "append a comma-separated list of values for that header; do not sort the values"
+    let mut h = base(sign("x-amz-meta-t:alice,bob\n"));
+    h.push(("x-amz-meta-t".into(), "alice".into())); h.push(("x-amz-meta-t".into(), "bob".into()));
+    let (st_a, calls_a, body_a) = send("GET", "/bkt/key", "", h);
+    // (b) one value signed, a second appended
+    let mut h = base(sign("x-amz-meta-t:alice\n"));
+    h.push(("x-amz-meta-t".into(), "alice".into())); h.push(("x-amz-meta-t".into(), "mallory".into()));
+    let (st_b, calls_b, body_b) = send("GET", "/bkt/key", "", h);
+    let ok_a = calls_a.len() == 1; let ok_b = calls_b.is_empty() && st_b >= 400;
+    json!({"violates": !(ok_a && ok_b), "input": {"signed_header": "x-amz-meta-t", "a": "sent twice, both values signed", "b": "signed once, a second value appended"},
+           "expected": {"a": "accepted", "b": "refused"},
+           "observed": {"a": {"status": st_a, "backend_calls": calls_a, "body": body_a.chars().take(120).collect::<String>()}, "b": {"status": st_b, "backend_calls": calls_b, "body": body_b.chars().take(120).collect::<String>()}},
+           "replay_args": ["sigv4-multi-header"]})
+}
+
+/// sigv4-body <METHOD> <path> <body> <signed|empty-hash>: header auth with x-amz-content-sha256 = sha256(body) ("signed": must be
+/// accepted) or = sha256("") although the body is attached ("empty-hash": must be refused) — the payload rule for methods other
+/// than GET/HEAD
+pub fn body_mode(a: &[String]) -> Value {
+    let (date, stamp) = now_stamp(0);
+    let host = "localhost"; let method = a[0].as_str(); let path = a[1].as_str(); let body = a[2].as_bytes().to_vec();
+    let digest = if a[3] == "signed" { sha256_hex(&body) } else { sha256_hex(b"") };
+    let scope = format!("{date}/us-east-1/s3/aws4_request");
+    let canonical = format!("{method}\n{}\n\nhost:{host}\nx-amz-content-sha256:{digest}\nx-amz-date:{stamp}\n\nhost;x-amz-content-sha256;x-amz-date\n{digest}", uri_encode(path, false));
+    let sts = format!("AWS4-HMAC-SHA256\n{stamp}\n{scope}\n{}", sha256_hex(canonical.as_bytes()));
+    let sig = hex(&hmac(&signing_key(&date, "us-east-1", "s3"), sts.as_bytes()));
+    let auth = format!("AWS4-HMAC-SHA256 Credential={AK}/{scope}, SignedHeaders=host;x-amz-content-sha256;x-amz-date, Signature={sig}");
+    let (st, calls, rbody) = send_body(method, path, "", vec![("host".into(), host.into()), ("x-amz-content-sha256".into(), digest.clone()), ("x-amz-date".into(), stamp), ("content-length".into(), body.len().to_string()), ("authorization".into(), auth)], body);
+    let reached = calls.iter().any(|c| c.contains('@'));
+    let ok = if a[3] == "signed" { reached } else { !reached && st >= 400 };
+    json!({"violates": !ok, "input": {"request": format!("{method} {path}"), "body": a[2], "x-amz-content-sha256": if a[3] == "signed" { "sha256(body)" } else { "sha256(\"\") although a body is attached" }},
+           "expected": if a[3] == "signed" { "accepted" } else { "refused (the signed digest is not the body's)" },
+           "observed": {"status": st, "backend_calls": calls, "body": rbody.chars().take(120).collect::<String>()}, "replay_args": ["sigv4-body", a[0], a[1], a[2], a[3]]})
 }
